@@ -1,4 +1,6 @@
 """C13  Comparison modes: HASH tracks content, METADATA tracks size+mtime."""
+import os
+
 from hypothesis import strategies as st
 
 from .. import gen, histprop
@@ -41,6 +43,10 @@ def observed_files(h):
     out = []
     for p in sorted(lc['observed'] | lc['outputs']):
         if p.startswith(h.R + '/') and not h.protected(p):
+            if os.path.islink(p):
+                p = os.path.realpath(p)          # edits go to the file the link points to
+                if not p.startswith(h.R + '/'):
+                    continue
             out.append(h.relp(p))
     return out
 
@@ -51,6 +57,25 @@ def drive(draw, h, cfg):
     # inputs to read
     for _ in range(draw(st.integers(1, 4))):
         step(h, ['write', draw(st.sampled_from(univ)), draw(st.integers(0, 2))])
+    # some inputs are reached through a symbolic link to a regular file (the library follows links)
+    # (only between paths that no build_file call of the program targets or has below/above it: a link whose target a build
+    # replaces would dangle, which is outside the small model of links used here)
+    from ..dsl import iter_stmts
+    targets = set()
+    for blk in [h.prog_rel['root']] + [f['body'] for f in h.prog_rel['funcs'].values()]:
+        for s_ in iter_stmts(blk):
+            if s_[0] == 'bf':
+                targets.add(s_[1])
+
+    def clear(u):
+        return not any(u == t or u.startswith(t + '/') or t.startswith(u + '/') for t in targets)
+    files = [u for u in univ if clear(u) and os.path.isfile(h.sb.ap(u))]
+    spots = [u for u in univ if clear(u)]
+    for _ in range(draw(st.sampled_from([0, 0, 1, 2]))):
+        if files and spots:
+            step(h, ['symlink', draw(st.sampled_from(spots)), draw(st.sampled_from(files))])
+            if h.stats['ext_effective']:
+                h.stats['c13_symlinks'] += 1
     step(h, ['build', {}, None])
     h.c13_edits = 0
     for _ in range(draw(st.integers(1, 4))):
